@@ -206,3 +206,46 @@ package sipsp
 //@   ensures err == ErrHdrOk || err == ErrHdrMoreBytes ==> offs <= n
 //@   ensures err == ErrHdrMoreBytes ==> contOK(c, n)
 //@   ensures within(c.LastHVal, len(buf))
+
+// ---- parsed URI: relocation and views (C18) ----
+
+//@ func (*PsipURI).AdjustOffs(u, newpos) (ok)
+//@   requires u != nil && uriOK(u) && int(newpos.Offs)+int(newpos.Len) <= 65535
+//@   modifies *u
+//@   split u.User.Offs != 0
+//@   split u.Pass.Offs != 0
+//@   split u.Host.Offs != 0
+//@   split u.Port.Offs != 0
+//@   split u.Params.Offs != 0
+//@   split u.Headers.Offs != 0
+//@   ensures[C18] "fits-iff-ok": ok <==> uriEnd(&u_old)-int(u_old.Scheme.Offs) <= int(newpos.Len)
+//@   ensures[C18] "refused-unchanged": !ok ==> *u == u_old
+//@   ensures[C18] "moved": ok ==> u.Scheme.Offs == newpos.Offs && u.Scheme.Len == u_old.Scheme.Len && u.PortNo == u_old.PortNo && u.URIType == u_old.URIType &&
+//@             moved(u.User, u_old.User, int(u_old.Scheme.Offs), int(newpos.Offs)) && moved(u.Pass, u_old.Pass, int(u_old.Scheme.Offs), int(newpos.Offs)) &&
+//@             moved(u.Host, u_old.Host, int(u_old.Scheme.Offs), int(newpos.Offs)) && moved(u.Port, u_old.Port, int(u_old.Scheme.Offs), int(newpos.Offs)) &&
+//@             moved(u.Params, u_old.Params, int(u_old.Scheme.Offs), int(newpos.Offs)) && moved(u.Headers, u_old.Headers, int(u_old.Scheme.Offs), int(newpos.Offs))
+//@   ensures[C18] "inside-span": ok ==> uriEnd(u) <= int(newpos.Offs)+int(newpos.Len)
+
+//@ func (*PsipURI).Long(u) (r)
+//@   requires u != nil && uriOK(u)
+//@   ensures[C18] "long-empty": (u.Headers.Len == 0 && u.Params.Len == 0 && u.Port.Len == 0 && u.Host.Len == 0 && u.Pass.Len == 0 && u.User.Len == 0) ==> r == PField{}
+//@   ensures[C18] "long-start": r != PField{} ==> r.Offs == u.Scheme.Offs
+//@   ensures[C18] "long-end": (u.Headers.Len > 0 ==> fend(r) == fend(u.Headers)) && (u.Headers.Len == 0 && u.Params.Len > 0 ==> fend(r) == fend(u.Params)) &&
+//@             (u.Headers.Len == 0 && u.Params.Len == 0 && u.Port.Len > 0 ==> fend(r) == fend(u.Port)) &&
+//@             (u.Headers.Len == 0 && u.Params.Len == 0 && u.Port.Len == 0 && u.Host.Len > 0 ==> fend(r) == fend(u.Host)) &&
+//@             (u.Headers.Len == 0 && u.Params.Len == 0 && u.Port.Len == 0 && u.Host.Len == 0 && u.Pass.Len > 0 ==> fend(r) == fend(u.Pass)) &&
+//@             (u.Headers.Len == 0 && u.Params.Len == 0 && u.Port.Len == 0 && u.Host.Len == 0 && u.Pass.Len == 0 && u.User.Len > 0 ==> fend(r) == fend(u.User))
+//@   ensures[C18] "long-covers": fend(r) <= uriEnd(u)
+
+//@ func (*PsipURI).Short(u) (r)
+//@   requires u != nil && uriOK(u)
+//@   ensures[C18] "short-start": r != PField{} ==> r.Offs == u.Scheme.Offs
+//@   ensures[C18] "short-end": (u.Port.Len > 0 ==> fend(r) == fend(u.Port)) && (u.Port.Len == 0 && u.Host.Len > 0 ==> fend(r) == fend(u.Host)) &&
+//@             (u.Port.Len == 0 && u.Host.Len == 0 && u.User.Len > 0 ==> fend(r) == fend(u.User)) &&
+//@             (u.Port.Len == 0 && u.Host.Len == 0 && u.User.Len == 0 ==> r == PField{})
+//@   ensures[C18] "short-prefix-of-long": r == PField{} || (r.Offs == u.Long().Offs && r.Len <= u.Long().Len)
+
+//@ func (*PsipURI).Truncate(u) ()
+//@   requires u != nil
+//@   modifies u.Params, u.Headers
+//@   ensures[C18] "truncate": u.Params == PField{} && u.Headers == PField{}
